@@ -1,5 +1,5 @@
 (* List-level lemmas about the decidable predicates of Spec/ConnKnown.v (req_infos, boundaries,
-   lockstep, known_F21, reads_body): peel off the first request of a connection. *)
+   lockstep): peel off the first request of a connection. *)
 From KV Require Import Lib.Bytes Model.Headers Model.Parser Model.Body Model.Server
   Spec.HeaderStore Spec.HttpGrammar Spec.ChunkedSpec Spec.Framing Spec.ConnSpec Spec.ConnKnown.
 From KV Require Import Proofs.ParserSafe.
@@ -184,11 +184,10 @@ Lemma lockstep_split : forall sg r payload rest pfx,
   lockstep a N sg = true ->
   exists reqsegs later, sg = reqsegs ++ later /\ concat reqsegs = pfx /\ concat later = rest /\
     (forall pre, reqsegs <> pre ++ [[]]) /\
-    lockstep a N later = true /\
-    (known_F21 a N sg = false -> known_F21 a N later = false).
+    lockstep a N later = true.
 Proof.
   intros sg r payload rest pfx Hs Hne Hp Hf Hv Hl.
-  unfold lockstep in Hl. unfold known_F21 at 1. cbv zeta in Hl.
+  unfold lockstep in Hl. cbv zeta in Hl.
   assert (Hsne : concat sg <> []). { rewrite Hs. destruct pfx; [congruence|discriminate]. }
   assert (Hpl : 0 < length pfx). { destruct pfx; [congruence|cbn [length]; lia]. }
   assert (HL : length (concat sg) = length pfx + length rest) by (rewrite Hs, app_length; lia).
@@ -205,40 +204,21 @@ Proof.
   assert (Hc : concat rs = pfx /\ concat lt = rest).
   { apply app_eq_len; auto. pose proof Hs as Hs2. rewrite H1, concat_app in Hs2. exact Hs2. }
   destruct Hc as [Hc1 Hc2].
-  exists rs, lt. split; [exact H1|]. split; [exact Hc1|]. split; [exact Hc2|]. split; [exact H3|]. split.
-  - unfold lockstep. rewrite Hc2. apply forallb_forall. intros ri Hri.
-    rewrite forallb_forall in Hl1. specialize (Hl1 (shift_ri (length pfx) ri) (in_map _ _ _ Hri)).
-    pose proof (req_infos_end_pos _ _ _ _ Hri) as Hpos.
-    cbn [shift_ri ri_end] in Hl1. apply orb_true_iff in Hl1. apply orb_true_iff.
-    destruct Hl1 as [Hl1|Hl1].
-    + left. apply Nat.leb_le in Hl1. apply Nat.leb_le. lia.
-    + right. apply existsb_exists in Hl1. destruct Hl1 as [x [Hx1 Hx2]]. apply Nat.eqb_eq in Hx2. subst x.
-      rewrite H1, boundaries_app in Hx1. apply in_app_or in Hx1. destruct Hx1 as [Hx1|Hx1].
-      * apply boundaries_le in Hx1. lia.
-      * rewrite boundaries_shift in Hx1. apply in_map_iff in Hx1. destruct Hx1 as [m [Hm Hin]].
-        apply existsb_exists. exists m. split; [exact Hin|]. apply Nat.eqb_eq. lia.
-  - intros HF. unfold known_F21. rewrite Hc2. cbn [existsb] in HF. apply orb_false_iff in HF.
-    destruct HF as [_ HF]. rewrite <- HF. clear.
-    induction (req_infos (S (length rest)) a N rest 0) as [|ri l IH]; [reflexivity|].
-    cbn [map existsb shift_ri ri_readable ri_reads_body]. rewrite IH. reflexivity.
-Qed.
-
-(* a first request whose body is not readable: F21 excluded means the handler reads the whole body *)
-Lemma known_F21_bad : forall sg r,
-  concat sg <> [] ->
-  parse_request (firstn N (concat sg)) = Ok r ->
-  rfc_framing (raw_fields (firstn N (concat sg))) <> FReject ->
-  view_body (rfc_framing (raw_fields (firstn N (concat sg)))) (skipn (q_offset r) (concat sg)) = BodyBad ->
-  known_F21 a N sg = false -> reads_body a r = true.
-Proof.
-  intros sg r Hne Hp Hf Hv HF. unfold known_F21 in HF.
-  rewrite (req_infos_bad (length (concat sg)) (concat sg) 0 r Hne Hp Hf Hv) in HF.
-  cbn [existsb ri_readable ri_reads_body negb andb orb] in HF.
-  destruct (reads_body a r); [reflexivity|discriminate].
+  exists rs, lt. split; [exact H1|]. split; [exact Hc1|]. split; [exact Hc2|]. split; [exact H3|].
+  unfold lockstep. rewrite Hc2. apply forallb_forall. intros ri Hri.
+  rewrite forallb_forall in Hl1. specialize (Hl1 (shift_ri (length pfx) ri) (in_map _ _ _ Hri)).
+  pose proof (req_infos_end_pos _ _ _ _ Hri) as Hpos.
+  cbn [shift_ri ri_end] in Hl1. apply orb_true_iff in Hl1. apply orb_true_iff.
+  destruct Hl1 as [Hl1|Hl1].
+  + left. apply Nat.leb_le in Hl1. apply Nat.leb_le. lia.
+  + right. apply existsb_exists in Hl1. destruct Hl1 as [x [Hx1 Hx2]]. apply Nat.eqb_eq in Hx2. subst x.
+    rewrite H1, boundaries_app in Hx1. apply in_app_or in Hx1. destruct Hx1 as [Hx1|Hx1].
+    * apply boundaries_le in Hx1. lia.
+    * rewrite boundaries_shift in Hx1. apply in_map_iff in Hx1. destruct Hx1 as [m [Hm Hin]].
+      apply existsb_exists. exists m. split; [exact Hin|]. apply Nat.eqb_eq. lia.
 Qed.
 End Lock.
 
 Print Assumptions lockstep_split.
-Print Assumptions known_F21_bad.
 Print Assumptions req_infos_fuel.
 Print Assumptions req_infos_shift.
